@@ -2,6 +2,7 @@ package spine
 
 import (
 	"fmt"
+	"github.com/enbility/ship-go/logging"
 
 	"github.com/enbility/spine-go/api"
 	"github.com/enbility/spine-go/model"
@@ -300,7 +301,8 @@ func CreateFunctionData[F any](featureType model.FeatureTypeType) []F {
 	}
 
 	if len(result) == 0 {
-		panic(fmt.Errorf("unknown featureType '%s'", featureType))
+		// the feature type may be announced by a remote device, so this must not panic
+		logging.Log().Errorf("unknown featureType '%s'", featureType)
 	}
 
 	return result
